@@ -901,5 +901,28 @@ def scenarios():
     return _scenario()
 
 
+def fixed_scenarios(S, tier, seed):
+    """Always-run scenarios for the multi-file carry-over class (state of one file leaking into the next one): two files in one
+    invocation, hard I/O errors at every fault point of the first file while the encoder/decoder still holds data.  Sizes vary
+    with the seed; everything else is fixed so that this class never depends on what Hypothesis happens to draw."""
+    import random
+    r = random.Random(seed * 7919 + 17)
+    out = []
+    for mode, threads, kinds in (("compress", 1, ["random", "random"]), ("compress", 4, ["random", "text"]), ("decompress", 1, ["random", "text"]), ("compress", 1, ["text", "sparse"])):
+        contents = [{"kind": k, "size": r.choice([16385, 40000, 50000, 30000]) + r.randrange(0, 3000), "seed": r.randrange(0, 2**31 - 1)} for k in kinds]
+        if mode == "compress" and kinds[0] == "random":
+            contents[0]["size"] = r.choice([204800, 262144, 180000]) + r.randrange(0, 3000)  # incompressible and long: output fills up while the coder still holds input
+        scn = {"mode": mode, "fmt": "xz", "stdout": None, "via_files": False, "keep": False, "force": False, "pre_target": False, "nosync": r.random() < 0.5,
+               "threads": threads, "abs": False, "names": ["a", "b"], "contents": contents, "damage": None, "preset": 0, "check": "crc64",
+               "faults": ["errno=ENOSPC", "errno=EIO"], "picks": [r.randrange(0, 99999) for _ in range(32)]}
+        S.evaluations += 1
+        S.count("fixed_multi_file_scenarios")
+        try:
+            oracle(scn, S)
+        except base.Violation as v:
+            v.scenario = scn
+            raise
+
+
 if __name__ == "__main__":
-    base.main("c17", scenarios, oracle, budgets={"quick": 150, "thorough": 2500})
+    base.main("c17", scenarios, oracle, budgets={"quick": 150, "thorough": 2500}, extra_runs=fixed_scenarios)
